@@ -93,7 +93,7 @@ static void vec_check(cstl_vector_t *v, size_t size, const char *when)
     size_t i;
     CHECK(cstl_vector_size(v) == size, "%s: size %zu, expected %zu", when, cstl_vector_size(v), size);
     CHECK(cstl_vector_capacity(v) >= cstl_vector_size(v), "%s: capacity below size", when);
-    if (cstl_vector_capacity(v) > 0) { shim_blk *b = shim_find(cstl_vector_data(v)); CHECK(b && b->p == cstl_vector_data(v) && b->sz >= (cstl_vector_capacity(v) + 1) * sizeof(long), "%s: capacity %zu is not backed by a live allocation", when, cstl_vector_capacity(v)); }
+    if (cstl_vector_capacity(v) > 0) { shim_blk *b = shim_find(cstl_vector_data(v)); CHECK(b && (size_t)((char *)cstl_vector_data(v) - (char *)b->p) + cstl_vector_capacity(v) * sizeof(long) <= b->sz && b->sz >= (cstl_vector_capacity(v) + 1) * sizeof(long), "%s: capacity %zu is not backed by a live allocation", when, cstl_vector_capacity(v)); }
     for (i = 0; i < size && !failed; i++) CHECK(*(long *)cstl_vector_at(v, i) != 0, "%s: element %zu is not constructed", when, i);
     CHECK((size_t)(xt_cons - xt_dest) == size, "%s: %d constructed, %d destroyed, %zu in the vector", when, xt_cons, xt_dest, size);
 }
@@ -104,14 +104,14 @@ static void script_vector(void)
     xt_cons = xt_dest = 0;
     cstl_vector_init_complex(&v, sizeof(long), v_cons, v_dest, NULL);
     for (k = 0; k < 9 && !failed && !aborted_run; k++) {
-        struct cstl_vector before = v;
-        if (k == 1) { step_begin("vector reserve(8)"); SHIM_CALL(ab, cstl_vector_reserve(&v, 8)); CHECK(!ab, "reserve aborted"); if (cstl_vector_capacity(&v) < 8) { CHECK(fault_in_step(), "reserve failed without an allocation failure"); CHECK(v.elem.base == before.elem.base && v.cap == before.cap && v.count == before.count, "failed reserve changed the vector"); tr("reserve->noop "); } vec_check(&v, size, "after reserve"); continue; }
-        if (k == 5) { step_begin("vector shrink_to_fit"); SHIM_CALL(ab, cstl_vector_shrink_to_fit(&v)); CHECK(!ab, "shrink aborted"); if (fault_in_step()) CHECK(v.cap == before.cap && v.elem.base == before.elem.base, "failed shrink changed the vector"); vec_check(&v, size, "after shrink_to_fit"); for (i = 0; i < size; i++) *(long *)cstl_vector_at(&v, i) = (long)(100 - i); step_begin("vector sort"); SHIM_CALL(ab, cstl_vector_sort(&v, cmp_long, NULL)); CHECK(!ab, "sort aborted"); for (i = 0; i + 1 < size && !failed; i++) CHECK(*(long *)cstl_vector_at(&v, i) <= *(long *)cstl_vector_at(&v, i + 1), "not sorted"); continue; }
+        const void *b_base = cstl_vector_data(&v); size_t b_cap = cstl_vector_capacity(&v), b_count = cstl_vector_size(&v);
+        if (k == 1) { step_begin("vector reserve(8)"); SHIM_CALL(ab, cstl_vector_reserve(&v, 8)); CHECK(!ab, "reserve aborted"); if (cstl_vector_capacity(&v) < 8) { CHECK(fault_in_step(), "reserve failed without an allocation failure"); CHECK(cstl_vector_data(&v) == b_base && cstl_vector_capacity(&v) == b_cap && cstl_vector_size(&v) == b_count, "failed reserve changed the vector"); tr("reserve->noop "); } vec_check(&v, size, "after reserve"); continue; }
+        if (k == 5) { step_begin("vector shrink_to_fit"); SHIM_CALL(ab, cstl_vector_shrink_to_fit(&v)); CHECK(!ab, "shrink aborted"); if (fault_in_step()) CHECK(cstl_vector_capacity(&v) == b_cap && cstl_vector_data(&v) == b_base, "failed shrink changed the vector"); vec_check(&v, size, "after shrink_to_fit"); for (i = 0; i < size; i++) *(long *)cstl_vector_at(&v, i) = (long)(100 - i); step_begin("vector sort"); SHIM_CALL(ab, cstl_vector_sort(&v, cmp_long, NULL)); CHECK(!ab, "sort aborted"); for (i = 0; i + 1 < size && !failed; i++) CHECK(*(long *)cstl_vector_at(&v, i) <= *(long *)cstl_vector_at(&v, i + 1), "not sorted"); continue; }
         step_begin("vector resize");
         SHIM_CALL(ab, cstl_vector_resize(&v, sizes[k]));
         if (ab == 1) {
             CHECK(fault_in_step(), "resize(%zu) aborted without an allocation failure", sizes[k]);
-            CHECK(v.elem.base == before.elem.base && v.cap == before.cap && v.count == before.count, "at the abort the vector is not what it was before (size %zu->%zu cap %zu->%zu)", before.count, v.count, before.cap, v.cap);
+            CHECK(cstl_vector_data(&v) == b_base && cstl_vector_capacity(&v) == b_cap && cstl_vector_size(&v) == b_count, "at the abort the vector is not what it was before (size %zu->%zu cap %zu->%zu)", b_count, cstl_vector_size(&v), b_cap, cstl_vector_capacity(&v));
             vec_check(&v, size, "at the abort");
             tr("resize(%zu)->abort ", sizes[k]); aborted_run = 1; break;
         }
@@ -206,7 +206,7 @@ static void NAME(void) \
         case 0: SHIM_CALL(ab, PFX##set_str(&a, LIT("hello"))); if (!ab) memcpy(ref, LIT("hello"), 6 * sizeof(CH)); break; \
         case 1: SHIM_CALL(ab, PFX##append_str(&a, LIT(", world and more"))); if (!ab) memcpy(ref + XLEN(ref), LIT(", world and more"), 17 * sizeof(CH)); break; \
         case 2: SHIM_CALL(ab, PFX##insert_ch(&a, 5, 3, (CH)'!')); if (!ab) { memmove(ref + 8, ref + 5, (XLEN(ref + 5) + 1) * sizeof(CH)); ref[5] = ref[6] = ref[7] = (CH)'!'; } break; \
-        case 3: { size_t c0 = a.v.cap; const void *d0 = a.v.elem.base; SHIM_CALL(ab, PFX##reserve(&a, 60)); if (!ab && PFX##capacity(&a) < 60) { CHECK(fault_in_step(), "reserve failed without an allocation failure"); CHECK(a.v.cap == c0 && a.v.elem.base == d0, "failed reserve changed the string"); tr("reserve->noop "); } break; } \
+        case 3: { size_t c0 = PFX##capacity(&a); const void *d0 = PFX##data(&a); SHIM_CALL(ab, PFX##reserve(&a, 60)); if (!ab && PFX##capacity(&a) < 60) { CHECK(fault_in_step(), "reserve failed without an allocation failure"); CHECK(PFX##capacity(&a) == c0 && (const void *)PFX##data(&a) == d0, "failed reserve changed the string"); tr("reserve->noop "); } break; } \
         case 4: SHIM_CALL(ab, PFX##erase(&a, 2, 4)); if (!ab) memmove(ref + 2, ref + 6, (XLEN(ref + 6) + 1) * sizeof(CH)); break; \
         case 5: SHIM_CALL(ab, PFX##substr(&a, 1, 7, &b)); if (!ab) { memcpy(ref2, ref + 1, 7 * sizeof(CH)); ref2[7] = 0; } break; \
         case 6: SHIM_CALL(ab, PFX##append(&a, &b)); if (!ab) memcpy(ref + XLEN(ref), ref2, (XLEN(ref2) + 1) * sizeof(CH)); break; \
